@@ -102,6 +102,7 @@ func (m *Mutex) Unlock() {
 			}
 		}
 	}
+	s.noteRelease(m.owner, m)
 	m.owner = nil
 	if m.held {
 		m.held = false
@@ -148,6 +149,9 @@ func (m *Mutex) TryLock() bool {
 		me = nonTask
 	}
 	m.owner = me
+	if me != nonTask {
+		me.Held = append(me.Held, HeldLock{Key: m, Site: caller(2), Write: true})
+	}
 	realLock(&m.mu)
 	m.held = true
 	return true
@@ -259,6 +263,7 @@ func (m *RWMutex) Unlock() {
 		return
 	}
 	m.sync(s)
+	s.noteRelease(m.writer, m)
 	m.writer = nil
 	if m.wheld {
 		m.wheld = false
@@ -315,6 +320,7 @@ func (m *RWMutex) RUnlock() {
 			break
 		}
 	}
+	s.noteRelease(me, m)
 	if m.rheld > 0 {
 		m.rheld--
 		m.mu.RUnlock()
